@@ -255,7 +255,7 @@ fn main() {
             "scale_amp" => 5,
             "offset_amp" => 4,
             "clip_amp" => 5,
-            "delay" => 4,
+            "delay" => 10,
             "scale_amp_per_channel" | "offset_amp_per_channel" => 3,
             _ => 1,
         }
